@@ -103,7 +103,7 @@ class Check(PropertyCheck):
                 "\n".join(" " * i + "\\" for i in range(3000))]
 
     def inputs(self, n):
-        return list(HOSTILE) + [gen_hostile(self.rng) for _ in range(n)] + [gen.zoo(self.rng, crlf=self.rng.chance(1, 2)) for _ in range(n // 4)] + \
+        return list(HOSTILE) + gen.arc_rails() + [gen_hostile(self.rng) for _ in range(n)] + [gen.zoo(self.rng, crlf=self.rng.chance(1, 2)) for _ in range(n // 4)] + \
             [crlf_legend_doc(self.rng) for _ in range(n // 10)]
 
     def correspondence(self):
